@@ -20,12 +20,14 @@ def suite_ok(patch):
         seed_eval.sh(f"git -C /repo worktree remove --force {wt}"); shutil.rmtree(wt, ignore_errors=True)
 
 pid = sys.argv[1]
-src = f"/tmp/seed/{pid}/_out"
+sub = sys.argv[2] if len(sys.argv) > 2 else "_out"      # output directory of the sub-agent inside its worktree
+offset = int(sys.argv[3]) if len(sys.argv) > 3 else 0    # numbering offset of the stored ids (second wave: 6)
+src = f"/tmp/seed/{pid}/{sub}"
 for k in range(1, 8):
     p = os.path.join(src, f"patch_{k}.diff")
     if not os.path.exists(p) or os.path.getsize(p) == 0:
         continue
-    d = os.path.join(VERIF, "refactors", f"{pid}-r{k}")
+    d = os.path.join(VERIF, "refactors", f"{pid}-r{k + offset}")
     os.makedirs(d, exist_ok=True)
     shutil.copy(p, os.path.join(d, "patch.diff"))
     meta = {}
@@ -34,7 +36,17 @@ for k in range(1, 8):
         try: meta = json.load(open(mp))
         except Exception: meta = {"raw": open(mp).read()}
     ok, why = suite_ok(os.path.join(d, "patch.diff"))
-    det = seed_eval.detect(d) if ok else {"applied": False}
-    meta.update({"area": pid, "suite_ok": ok, "suite": why, "alarms_first_pass": det.get("fired", {})})
+    if ok:
+        import refactor_eval
+        _, alarms = refactor_eval.evaluate(os.path.basename(d))
+        fired = {}
+        for p_, r_, *_ in alarms:
+            fired.setdefault(p_, [])
+            if r_ not in fired[p_]:
+                fired[p_].append(r_)
+        det = {"fired": fired}
+    else:
+        det = {"applied": False}
+    meta.update({"area": pid, "suite_ok": ok, "suite": why, "alarms_first_pass": det.get("fired", {}), "wave": 2 if offset else 1})
     json.dump(meta, open(os.path.join(d, "meta.json"), "w"), indent=1)
-    print(f"{pid}-r{k}: suite_ok={ok} alarms={det.get('fired')} :: {meta.get('kind','')[:40]} :: {meta.get('summary','')[:100]}")
+    print(f"{pid}-r{k + offset}: suite_ok={ok} alarms={det.get('fired')} :: {meta.get('kind','')[:40]} :: {meta.get('summary','')[:100]}")
